@@ -52,6 +52,8 @@ def run(ctx):
     progq = db.program('qmail-queue')
     rules01 = {k: None for k in ()}
     H = C01.QueueHooks({})
+    from qv.lib import macro_const as _mc
+    H.precise = frozenset(C01.counter_vars(progq.fn('main', 'qmail-queue.c'), _mc(db, 'qmail-queue.c', 'ADDR')))
     eng = Engine(db, progq, H)
     eng.run(progq.fn('main', 'qmail-queue.c'))
     rep.count_states(eng.states, eng.transitions)
